@@ -464,7 +464,7 @@ func c38Generate(r *verifh.Run) []string {
 	// the inner DSMR refuses the chunk after the txs were bonded: they must still be released
 	add("reset")
 	add("deftx 0 0 %d 100", s0)
-	add("deftx 1 0 %d 150", s0)
+	add("deftx 1 0 %d 150", sz(1, 0, 150, 3))
 	add("setmax 0 1000000")
 	add("buildfail 1 0 1")
 	add("accept 120")
